@@ -4358,12 +4358,20 @@ impl Handler {
 
         // Protect _internal KG from direct access.
         // Block both explicit commands AND sessions already bound to _internal.
-        let session_kg_owned: Option<String> = if knowledge_graph.is_none() {
+        // A program that starts with a query and comes with a session runs on the
+        // session's graph whatever `knowledge_graph` says (query_program_with_session
+        // below), so that is the graph to guard and to authorize against.
+        let runs_on_session_graph = session_id.is_some() && trimmed.starts_with('?');
+        let session_kg_owned: Option<String> = if knowledge_graph.is_none() || runs_on_session_graph {
             session_id.and_then(|sid| self.sessions.session_kg(sid).ok())
         } else {
             None
         };
-        let current_kg = knowledge_graph.as_deref().or(session_kg_owned.as_deref());
+        let current_kg = if runs_on_session_graph {
+            session_kg_owned.as_deref().or(knowledge_graph.as_deref())
+        } else {
+            knowledge_graph.as_deref().or(session_kg_owned.as_deref())
+        };
 
         if let Some(identity) = effective_auth {
             if identity.role != crate::auth::Role::Admin
